@@ -58,6 +58,69 @@ type Scenario struct {
 	// at a time in Order ((node, directive index) pairs).
 	Dynamic bool     `json:"dynamic,omitempty"`
 	Order   [][2]int `json:"order,omitempty"`
+	// Stages (dynamic scenarios only; optional) cuts Order into consecutive
+	// stages: the harness waits for process-wide quiescence after each stage, so
+	// everything the controllers do for the directives of stage k (advertising,
+	// matching, opening streams) has happened before a directive of stage k+1
+	// exists. Order is always the concatenation of the stages.
+	Stages [][][2]int `json:"stages,omitempty"`
+	// Note names the generator family (evidence / witnesses only).
+	Note string `json:"note,omitempty"`
+	// Modes (optional, parallel to Dirs) says how the harness-side consumer /
+	// resolver handler of a request behaves (Mode* constants; default ModeRecord).
+	Modes [2][]int `json:"modes,omitempty"`
+}
+
+// Behaviour of the harness side of one request.
+const (
+	// ModeRecord: the value handler only records the value; the harness accepts
+	// / closes it later (after quiescence).
+	ModeRecord = 0
+	// ModeAcceptNow: the value handler accepts the stream synchronously, i.e.
+	// while the controller is still inside the AddValue call that delivers it.
+	ModeAcceptNow = 1
+	// ModeAcceptCloseSiblings: accepts synchronously and then closes the bus
+	// instances (directive.Instance.Close) of every OTHER local request with the
+	// same (protocol id, context): their resolvers are cancelled by the real
+	// controllerbus, so a later AddValue of the same match returns ok=false.
+	ModeAcceptCloseSiblings = 2
+	// ModeAcceptReleaseSiblings: the same through Reference.Release +
+	// Instance.CloseIfUnreferenced.
+	ModeAcceptReleaseSiblings = 3
+	// ModeGoneAtStream: a bus request whose instance the harness closes at the
+	// moment the first solicited stream of its node is about to be handed to the
+	// controller (released while the remote solicitation arrives).
+	ModeGoneAtStream = 4
+	// ModeGoneAtStreamAsync: the same from a free-running goroutine.
+	ModeGoneAtStreamAsync = 5
+	// ModeFakeReject: the request is registered with the controller directly
+	// (Controller.HandleDirective + Resolver.Resolve) with a harness
+	// directive.ResolverHandler whose AddValue rejects every value (ok=false:
+	// what controllerbus answers for a cancelled resolver or a reached hard cap).
+	ModeFakeReject = 6
+	// ModeFakeCap1: harness ResolverHandler that takes the first value and
+	// rejects all later ones (hard cap of one value).
+	ModeFakeCap1 = 7
+)
+
+var modeNames = [...]string{"record", "accept-now", "accept+close-siblings", "accept+release-siblings", "gone-at-stream", "gone-at-stream-async", "fake-reject", "fake-cap1"}
+
+// Mode returns the behaviour of request di of node n.
+func (s *Scenario) Mode(n, di int) int {
+	if di < len(s.Modes[n]) {
+		return s.Modes[n][di]
+	}
+	return ModeRecord
+}
+
+func isFakeMode(m int) bool { return m == ModeFakeReject || m == ModeFakeCap1 }
+
+// stageList returns the registration stages of a dynamic scenario.
+func (s *Scenario) stageList() [][][2]int {
+	if len(s.Stages) > 0 {
+		return s.Stages
+	}
+	return [][][2]int{s.Order}
 }
 
 // Sig returns a canonical string of the scenario.
@@ -66,11 +129,17 @@ func (s *Scenario) Sig() string {
 	fmt.Fprintf(&b, "links=%d swap=%v", s.Links, s.SwapIDs)
 	if s.Dynamic {
 		fmt.Fprintf(&b, " dynamic%v", s.Order)
+		if len(s.Stages) > 0 {
+			fmt.Fprintf(&b, " stages%v", s.Stages)
+		}
 	}
 	for n := 0; n < 2; n++ {
 		fmt.Fprintf(&b, " N%d:", n)
-		for _, d := range s.Dirs[n] {
+		for di, d := range s.Dirs[n] {
 			b.WriteString(d.String())
+			if m := s.Mode(n, di); m != ModeRecord {
+				b.WriteString("<" + modeNames[m] + ">")
+			}
 		}
 	}
 	return b.String()
@@ -137,6 +206,11 @@ func (s *Scenario) MustHave(n, di, li int) bool {
 type RecvValue struct {
 	Dir int
 	Val link_solicit.SolicitMountedStream
+	// EarlyMS is the stream an accepting value handler (ModeAccept*) obtained
+	// synchronously inside the delivering AddValue call (nil: none / not that
+	// mode); EarlyCloses is the Close count of that stream end at that moment.
+	EarlyMS     link.MountedStream
+	EarlyCloses int
 }
 
 // StreamRec describes one physical stream opened over a harness link.
@@ -165,6 +239,15 @@ type Node struct {
 	merged map[int]int // request index -> earlier request whose bus directive it was merged onto
 	refs   []directive.Reference
 	idle   []atomic.Bool
+	// dirRefs[k] is the reference of dis[k]
+	dirRefs []directive.Reference
+	// goneOnce: ModeGoneAtStream* requests are closed once
+	goneOnce sync.Once
+
+	// Rejected counts AddValue calls answered ok=false by harness resolver
+	// handlers; SiblingCloses the bus instances closed by accepting handlers;
+	// GoneCloses those closed at stream arrival.
+	Rejected, SiblingCloses, GoneCloses atomic.Int64
 }
 
 // MergedWith reports the earlier request onto whose bus directive request di
@@ -245,6 +328,7 @@ func (c *linkCtrl) HandleDirective(ctx context.Context, di directive.Instance) (
 
 // valueHandler records values delivered to one harness directive reference.
 type valueHandler struct {
+	t   *TwoNode
 	n   *Node
 	dir int
 }
@@ -254,11 +338,172 @@ func (h *valueHandler) HandleValueAdded(_ directive.Instance, v directive.Attach
 	if !ok {
 		return
 	}
-	h.n.mu.Lock()
-	h.n.values = append(h.n.values, RecvValue{Dir: h.dir, Val: sms})
-	h.n.mu.Unlock()
-	h.n.nvals.Add(1)
+	h.t.deliver(h.n, h.dir, sms)
 }
+
+// deliver is the consumer of request dir of node n: records the value and, in
+// the accepting modes, accepts it right away (the controller is still inside
+// the AddValue call) and then lets the sibling requests go away.
+func (t *TwoNode) deliver(n *Node, dir int, sms link_solicit.SolicitMountedStream) {
+	rv := RecvValue{Dir: dir, Val: sms}
+	mode := t.Scen.Mode(n.Idx, dir)
+	switch mode {
+	case ModeAcceptNow, ModeAcceptCloseSiblings, ModeAcceptReleaseSiblings:
+		if ms, _, err := sms.AcceptMountedStream(); err == nil && ms != nil {
+			rv.EarlyMS = ms
+			if f, ok := ms.(*FakeMountedStream); ok && f != nil {
+				rv.EarlyCloses = f.Strm.Closes()
+			}
+		}
+	}
+	n.mu.Lock()
+	n.values = append(n.values, rv)
+	n.mu.Unlock()
+	n.nvals.Add(1)
+	if rv.EarlyMS != nil && (mode == ModeAcceptCloseSiblings || mode == ModeAcceptReleaseSiblings) {
+		t.closeSiblings(n, dir, mode == ModeAcceptReleaseSiblings)
+	}
+}
+
+// closeSiblings makes every other bus request of node n with the same
+// (protocol id, context) as request dir go away (real controllerbus calls).
+func (t *TwoNode) closeSiblings(n *Node, dir int, viaRelease bool) {
+	spec := t.Scen.Dirs[n.Idx][dir]
+	var own directive.Instance
+	var insts []directive.Instance
+	var refs []directive.Reference
+	n.mu.Lock()
+	for k, di := range n.disDir {
+		if di == dir {
+			own = n.dis[k]
+		}
+	}
+	for k, di := range n.disDir {
+		o := t.Scen.Dirs[n.Idx][di]
+		if di == dir || n.dis[k] == own || o.P != spec.P || o.C != spec.C {
+			continue
+		}
+		insts = append(insts, n.dis[k])
+		refs = append(refs, n.dirRefs[k])
+	}
+	n.mu.Unlock()
+	for k, inst := range insts {
+		if viaRelease {
+			refs[k].Release()
+			inst.CloseIfUnreferenced(false)
+		} else {
+			inst.Close()
+		}
+		n.SiblingCloses.Add(1)
+	}
+}
+
+// goneAtStream closes the ModeGoneAtStream* requests of node ni; called when a
+// solicited stream is about to be handed to that node's controller.
+func (t *TwoNode) goneAtStream(ni int, pid protocol.ID) {
+	if !strings.HasPrefix(string(pid), link_solicit_controller.SolicitStreamPrefix) {
+		return
+	}
+	n := t.Nodes[ni]
+	n.goneOnce.Do(func() {
+		n.mu.Lock()
+		var insts []directive.Instance
+		var async []bool
+		for k, di := range n.disDir {
+			switch t.Scen.Mode(ni, di) {
+			case ModeGoneAtStream:
+				insts, async = append(insts, n.dis[k]), append(async, false)
+			case ModeGoneAtStreamAsync:
+				insts, async = append(insts, n.dis[k]), append(async, true)
+			}
+		}
+		n.mu.Unlock()
+		for k, inst := range insts {
+			n.GoneCloses.Add(1)
+			if async[k] {
+				go inst.Close()
+			} else {
+				inst.Close()
+			}
+		}
+	})
+}
+
+// fakeRH is a harness directive.ResolverHandler for requests registered with
+// the controller directly (ModeFake*). It follows the documented contract:
+// AddValue may reject a value (ok=false).
+type fakeRH struct {
+	t   *TwoNode
+	n   *Node
+	dir int
+
+	mu   sync.Mutex
+	seq  uint32
+	vals map[uint32]directive.Value
+}
+
+func (h *fakeRH) AddValue(v directive.Value) (uint32, bool) {
+	mode := h.t.Scen.Mode(h.n.Idx, h.dir)
+	h.mu.Lock()
+	if mode == ModeFakeReject || (mode == ModeFakeCap1 && len(h.vals) >= 1) {
+		h.mu.Unlock()
+		h.n.Rejected.Add(1)
+		return 0, false
+	}
+	h.seq++
+	id := h.seq
+	h.vals[id] = v
+	h.mu.Unlock()
+	if sms, ok := v.(link_solicit.SolicitMountedStream); ok {
+		h.t.deliver(h.n, h.dir, sms)
+	}
+	return id, true
+}
+
+func (h *fakeRH) RemoveValue(id uint32) (directive.Value, bool) {
+	h.mu.Lock()
+	defer h.mu.Unlock()
+	v, ok := h.vals[id]
+	delete(h.vals, id)
+	return v, ok
+}
+
+func (h *fakeRH) CountValues(bool) int { h.mu.Lock(); defer h.mu.Unlock(); return len(h.vals) }
+
+func (h *fakeRH) ClearValues() []uint32 {
+	h.mu.Lock()
+	defer h.mu.Unlock()
+	var ids []uint32
+	for id := range h.vals {
+		ids = append(ids, id)
+	}
+	h.vals = map[uint32]directive.Value{}
+	return ids
+}
+
+func (h *fakeRH) MarkIdle(idle bool) { h.n.idle[h.dir].Store(idle) }
+
+func (h *fakeRH) AddValueRemovedCallback(id uint32, cb func()) func() {
+	h.mu.Lock()
+	_, ok := h.vals[id]
+	h.mu.Unlock()
+	if !ok && cb != nil {
+		cb()
+	}
+	return func() {}
+}
+
+func (h *fakeRH) AddResolverRemovedCallback(cb func()) func() { return func() {} }
+
+func (h *fakeRH) AddResolver(res directive.Resolver, cb func()) func() {
+	if cb != nil {
+		cb() // child resolvers are not run by this handler
+	}
+	return func() {}
+}
+
+var _ directive.ResolverHandler = (*fakeRH)(nil)
+
 func (h *valueHandler) HandleValueRemoved(directive.Instance, directive.AttachedValue) {}
 func (h *valueHandler) HandleInstanceDisposed(directive.Instance)                       {}
 
@@ -363,7 +608,21 @@ func (t *TwoNode) addDirective(i, di int) string {
 	if spec.C != "" {
 		cb = []byte(spec.C)
 	}
-	inst, ref, err := n.Bus.AddDirective(link_solicit.NewSolicitProtocol(protocol.ID(spec.P), cb, pc, tid), &valueHandler{n: n, dir: di})
+	sp := link_solicit.NewSolicitProtocol(protocol.ID(spec.P), cb, pc, tid)
+	if isFakeMode(t.Scen.Mode(i, di)) {
+		// registered with the solicitation controller directly; the harness is the
+		// resolver handler
+		resolvers, err := n.Sol.HandleDirective(t.ctx, NewFakeDI(sp))
+		if err != nil || len(resolvers) == 0 {
+			return fmt.Sprintf("HandleDirective(SolicitProtocol): %v (%d resolvers)", err, len(resolvers))
+		}
+		rh := &fakeRH{t: t, n: n, dir: di, vals: map[uint32]directive.Value{}}
+		for _, res := range resolvers {
+			go func(res directive.Resolver) { _ = res.Resolve(t.ctx, rh) }(res)
+		}
+		return ""
+	}
+	inst, ref, err := n.Bus.AddDirective(sp, &valueHandler{t: t, n: n, dir: di})
 	if err != nil {
 		return "AddDirective: " + err.Error()
 	}
@@ -392,6 +651,7 @@ func (t *TwoNode) addDirective(i, di int) string {
 	n.dis = append(n.dis, inst)
 	n.disDir = append(n.disDir, di)
 	n.refs = append(n.refs, ref)
+	n.dirRefs = append(n.dirRefs, ref)
 	n.mu.Unlock()
 	inst.AddIdleCallback(func(isIdle bool, _ []error) { n.idle[di].Store(isIdle) })
 	return ""
@@ -420,10 +680,14 @@ func (t *TwoNode) waitIdle(which [][2]int) bool {
 	})
 }
 
-// AddDirectivesInOrder (dynamic scenarios) registers the directives one at a
-// time in Scen.Order, each only after the previous one is registered.
-func (t *TwoNode) AddDirectivesInOrder() string {
-	for _, w := range t.Scen.Order {
+// AddStage (dynamic scenarios) registers the directives of stage k one at a
+// time in their order, each only after the previous one is registered.
+func (t *TwoNode) AddStage(k int) string {
+	st := t.Scen.stageList()
+	if k >= len(st) {
+		return ""
+	}
+	for _, w := range st[k] {
 		if e := t.addDirective(w[0], w[1]); e != "" {
 			return e
 		}
@@ -473,6 +737,8 @@ func (t *TwoNode) openStream(from, li int) func(ctx context.Context, l *FakeMoun
 		t.nstreams.Add(1)
 		t.disp.Add(1)
 		go t.dispatch(to, rec)
+		// the opener's controller is about to resolve the match with this stream
+		t.goneAtStream(from, pid)
 		return rec.MS[0], nil
 	}
 }
@@ -493,6 +759,7 @@ func (t *TwoNode) dispatch(to int, rec *StreamRec) {
 		ms.Strm.Close()
 		return
 	}
+	t.goneAtStream(to, rec.Proto)
 	if err := h.HandleMountedStream(t.ctx, ms); err != nil {
 		ms.Strm.Close()
 	}
